@@ -75,6 +75,12 @@ class CallGraph:
                             self.out[p].append(Edge("ext", callee, bb, t))
                 else:
                     self.out[p].append(Edge("ext", callee, bb, t))
+                    if callee.startswith("salsa::"):
+                        # salsa plumbing executes the query function of the query type it is instantiated with
+                        for ga in f.get("args") or []:
+                            q = "<%s as salsa::plumbing::QueryFunction>::execute" % ga.get("ty")
+                            if q in prog.bodies:
+                                self.out[p].append(Edge("call", q, bb, t))
                 # functional arguments
                 fargs = []
                 for idx, ga in enumerate(f.get("args") or []):
